@@ -29,3 +29,27 @@ pub fn quantity_bits(value: &Value) -> Option<(u64, String)> {
         _ => None,
     }
 }
+
+/// Range limits of the date-time library as the running implementation has them:
+/// (smallest timestamp in seconds, largest timestamp in seconds, nanoseconds of the largest
+/// timestamp, largest number of seconds `jiff::Span::try_seconds` accepts).
+pub fn datetime_limits() -> (i64, i64, i32, i64) {
+    use jiff::{Span, Timestamp};
+
+    // largest n with Span::new().try_seconds(n).is_ok(), by bisection
+    let (mut lo, mut hi) = (0i64, i64::MAX);
+    while lo < hi {
+        let mid = lo + (hi - lo) / 2 + 1;
+        if Span::new().try_seconds(mid).is_ok() {
+            lo = mid;
+        } else {
+            hi = mid - 1;
+        }
+    }
+    (
+        Timestamp::MIN.as_second(),
+        Timestamp::MAX.as_second(),
+        Timestamp::MAX.subsec_nanosecond(),
+        lo,
+    )
+}
